@@ -164,6 +164,24 @@ Definition go_repr (g : goaddr) (ip : ipaddr) : Prop :=
   end.
 
 (* ------------------------------------------------------------------------------------------ *)
+(* limits derived from the one build option MAX_MATCH_SET_LEN = N (Makefile: -D for C, -X for Go) *)
+(* ------------------------------------------------------------------------------------------ *)
+(* C: routing_map max_entries / route() loop bound, bitmap words of struct domain_routing, lpm_array_map slots *)
+Definition c_rule_limit (n : N) : N := n.
+Definition c_bitmap_words (n : N) : N := n / c_limit_bitmap_div.
+Definition c_lpm_slots (n : N) : N := n + c_limit_lpm_add.
+(* Go: consts.MaxMatchSetLen after init(); words the domain matchers allocate (len / 32); LPM ring modulus *)
+Definition go_rule_limit (n : N) : option N := run_init go_init_steps n.
+Definition go_bitmap_words (m : N) : N := m / go_limit_bitmap_div.
+Definition limits_agree (n m : N) : Prop :=
+  m = c_rule_limit n                                   (* same rule-count limit *)
+  /\ go_bitmap_words m = c_bitmap_words n              (* same number of bitmap words *)
+  /\ c_bitmap_words n * 32 = c_rule_limit n            (* and the words cover every rule index exactly *)
+  /\ m <= c_lpm_slots n.                               (* every LPM ring index (mod m) is a kernel slot *)
+Definition limits_agreeb (n m : N) : bool :=
+  (m =? c_rule_limit n) && (go_bitmap_words m =? c_bitmap_words n) && (c_bitmap_words n * 32 =? c_rule_limit n) && (m <=? c_lpm_slots n).
+
+(* ------------------------------------------------------------------------------------------ *)
 (* conn_state.state: kernel writer (__mark_tcp_seen) vs the control plane's janitor              *)
 (* ------------------------------------------------------------------------------------------ *)
 (* what the kernel stores: SYN creates the entry with TCP_STATE_ACTIVE; a later FIN/RST stores TCP_STATE_CLOSING *)
